@@ -20,9 +20,15 @@ def handleTokens (inp : List String) (obs : String) : Verdict :=
     | none => bad "s"
     | some w =>
       let r := runWork w
-      let m := modelRender r
       let implToks := tokens obs
-      let impl := implRender implToks
+      -- the residue of the temporary directory belongs to C13 (and depends on which of two
+      -- equal-key files is exhausted first): not compared here
+      let noResidue (s : String) : String :=
+        match tokens s with
+        | fl :: st :: _ :: _ :: _ :: rest => " ".intercalate (fl :: st :: rest)
+        | _ => s
+      let m := noResidue (modelRender r)
+      let impl := noResidue (implRender implToks)
       let spawned := r.final.writers.length
       let tags := [if w.conc then "concurrent" else "sequential", s!"writers{min spawned 4}",
                    if w.sched.isEmpty then "free-run" else "forced"]
